@@ -32,26 +32,33 @@ func genC02(g *G, n int, out io.Writer) {
 		p := g.path(1 + g.n(3))
 		fetch := g.coin(0.3)
 		c := C02Case{Op: "c02", Id: i, Path: p, Graph: gr, Focus: gr[f].Id, Fetch: fetch, Text: p.Render()}
-		var prof ProfileSpec
-		prof.Name = fmt.Sprintf("c02_%d", i)
-		if fetch {
-			// nested: inner constraint that always fails -> every reached node is a failed node
-			prof.Atoms = []Atom{{Kind: "minCount", Path: PP("zz", false), Arg: i64p(1)}}
-			prof.Paths = []Path{p}
-			prof.Validations = []Validation{{Name: "reach", Class: NS + "F", Rule: Rule{Nested: &Rule{Atom: ip(0)}, PathIx: ip(0)}}}
-		} else {
-			prof.Atoms = []Atom{
-				{Kind: "in", Path: p, Vals: []string{"zzz_none"}},
-				{Kind: "maxCount", Path: p, Arg: i64p(0)},
-			}
-			prof.Validations = []Validation{
-				{Name: "values", Class: NS + "F", Rule: Rule{Atom: ip(0)}},
-				{Name: "count", Class: NS + "F", Rule: Rule{Atom: ip(1)}},
-			}
-		}
-		c.Profile = prof.Render()
-		c.Data = gr.RenderFlat()
+		fillC02(&c)
 		enc.Encode(c)
 	}
 	customSteps = false
+}
+
+// fillC02 renders the observing profile and the data of a c02 case
+func fillC02(c *C02Case) {
+	p := c.Path
+	c.Text = p.Render()
+	var prof ProfileSpec
+	prof.Name = fmt.Sprintf("c02_%d", c.Id)
+	if c.Fetch {
+		// nested: inner constraint that always fails -> every reached node is a failed node
+		prof.Atoms = []Atom{{Kind: "minCount", Path: PP("zz", false), Arg: i64p(1)}}
+		prof.Paths = []Path{p}
+		prof.Validations = []Validation{{Name: "reach", Class: NS + "F", Rule: Rule{Nested: &Rule{Atom: ip(0)}, PathIx: ip(0)}}}
+	} else {
+		prof.Atoms = []Atom{
+			{Kind: "in", Path: p, Vals: []string{"zzz_none"}},
+			{Kind: "maxCount", Path: p, Arg: i64p(0)},
+		}
+		prof.Validations = []Validation{
+			{Name: "values", Class: NS + "F", Rule: Rule{Atom: ip(0)}},
+			{Name: "count", Class: NS + "F", Rule: Rule{Atom: ip(1)}},
+		}
+	}
+	c.Profile = prof.Render()
+	c.Data = c.Graph.RenderFlat()
 }
